@@ -56,7 +56,42 @@ def generate(inv, T):
         w3 = H.Wrapper('w_zero_' + tag, T, 0, T, n, 'const %s z = %s::Zero(); std::memcpy(out, static_cast<const void*>(&z), sizeof z < %d * sizeof(%s) ? sizeof z : %d * sizeof(%s));' % (QT, QT, n, ct, n, ct))
         ws.append(w3)
         obs.append({'id': '%s<%s>::Zero()' % (q, ct), 'kind': 'zero', 'w': w3.name, 'n': n, 'T': T})
+    # component mutators / accessors of the value classes the multi-component quantities expose through Value() and
+    # MutableValue(): the slot a component name designates is fixed by the naming convention (row-major ij for Dyad; the
+    # upper triangle xx xy xz yy yz zz for SymmetricDyad, with ji an alias of ij), independently of the code
+    for cls, comps in COMPONENTS.items():
+        n = len(set(comps.values()))
+        VT = 'PhQ::%s<%s>' % (cls, ct)
+        for c, slot in comps.items():
+            for form, code in (('Set', 't.Set_%s(v);' % c), ('Mutable', 't.Mutable_%s() = v;' % c)):
+                body = '%s t = phqv::get<%s>(in); const %s v = in[%d]; %s phqv::put(out, t);' % (VT, VT, ct, n, code)
+                w = H.Wrapper('w_c%s_%s_%s_%s' % (form, cls, c, T), T, n + 1, T, n, body)
+                ws.append(w)
+                obs.append({'id': '%s<%s>::%s_%s' % (cls, ct, form, c), 'kind': 'component', 'w': w.name, 'n': n, 'T': T, 'slot': slot})
+            w = H.Wrapper('w_cGet_%s_%s_%s' % (cls, c, T), T, n, T, 1, 'const %s t = phqv::get<%s>(in); out[0] = t.%s();' % (VT, VT, c))
+            ws.append(w)
+            obs.append({'id': '%s<%s>::%s()' % (cls, ct, c), 'kind': 'component-get', 'w': w.name, 'n': n, 'T': T, 'slot': slot})
     return ws, obs
+
+
+def _dyad_components():
+    d = {}
+    for i, a in enumerate('xyz'):
+        for j, b in enumerate('xyz'):
+            d[a + b] = 3 * i + j
+    return d
+
+
+def _sym_components():
+    order = ['xx', 'xy', 'xz', 'yy', 'yz', 'zz']
+    d = {}
+    for a in 'xyz':
+        for b in 'xyz':
+            d[a + b] = order.index(''.join(sorted(a + b)))
+    return d
+
+
+COMPONENTS = {'PlanarVector': {'x': 0, 'y': 1}, 'Vector': {'x': 0, 'y': 1, 'z': 2}, 'SymmetricDyad': _sym_components(), 'Dyad': _dyad_components()}
 
 
 def worker(ctx):
@@ -85,6 +120,18 @@ def one(ctx, d):
             o.replay = core.write_replay(PROP, o.oid, {'kind': 'ground', 'property': PROP, 'obligation': o.oid, 'statement': o.desc, 'observed': o.reason, 'includes': [], 'wrappers': [], 'impl': None, 'inputs': []})
         return
     xs = [tm.arg(T, 'x%d' % i) for i in range(w.n_in)]
+    if d['kind'] in ('component', 'component-get'):
+        if d['kind'] == 'component':
+            o = ctx.ob(d['id'], 'component-mutator', 'BIT', '%s: writes the given number into stored slot %d (the slot its component name designates) and leaves the other %d numbers unchanged' % (d['id'], d['slot'], n - 1))
+            exp = [xs[n] if i == d['slot'] else xs[i] for i in range(n)]
+        else:
+            o = ctx.ob(d['id'], 'component-accessor', 'BIT', '%s: returns stored slot %d' % (d['id'], d['slot']))
+            exp = [xs[d['slot']]]
+        if res is None or res.error:
+            o.reason = ctx.why_missing(d['w'])
+            return
+        ctx.bit_equal(o, res.out, exp, w, key=o.oid, replay=ctx.native_term_replay(w, exp))
+        return
     if d['kind'] == 'readback':
         o = ctx.ob(d['id'], 'array-readback', 'BIT', '%s: 2n numbers copied into Q[2] are read back through Value() slot for slot' % d['id'])
         exp = xs[:2 * n]
@@ -123,7 +170,7 @@ def main():
             specs.append(engine.UnitSpec('c17_%s_%d' % (T, ci), incs, [byw[d['w']] for d in part], {'obs': part, 'prop': PROP}))
     results = engine.run_units(specs, worker, work)
     engine.collect(rep, results)
-    rep.bounds = {'numeric_types': types, 'quantities': len(inv.quantity_names()), 'array_length': 2}
+    rep.bounds = {'numeric_types': types, 'quantities': len(inv.quantity_names()), 'array_length': 2, 'value_class_components': {k: sorted(v) for k, v in COMPONENTS.items()}}
     rep.assumptions = ['sizeof / alignof / type traits are the constants clang 14 folds for x86-64 (GCC agrees on this ABI; not re-derived)',
                        'the static part is a ground comparison: no input to quantify over, the solver is a formality there']
     rep.explanation = 'static layout facts read from folded IR constants; array read-back, mutator frame conditions and Zero() decided bit-precisely with the memory offsets of the current IR'
